@@ -168,4 +168,29 @@ func init() {
 		},
 		Outside: []string{"core sizes other than the listed cases", "the recorder property is one report from an arbitrary recorder state (inductive over the report stream)"},
 	})
+
+	Properties = append(Properties, &PropertySpec{
+		ID: "C02",
+		Harnesses: []HarnessSpec{
+			{Name: "C02_pop", Expect: []string{"pop-empty", "pop-non-empty"},
+				Quick:    grid([]string{"P"}, []int{1, 2, 3, 4}),
+				Thorough: grid([]string{"P"}, seq(1, 8))},
+			{Name: "C02_queue", Expect: []string{"end", "push-appends-at-back"},
+				Quick:    grid([]string{"P"}, []int{1, 2, 3, 4}),
+				Thorough: grid([]string{"P"}, seq(1, 8))},
+			{Name: "C02_split", Expect: []string{"end", "fallthrough-first"},
+				Quick:    grid([]string{"M", "P"}, []int{3, 5, 8}, []int{1, 2, 3}),
+				Thorough: grid([]string{"M", "P"}, []int{3, 4, 5, 8, 13, 16}, []int{1, 2, 3, 4})},
+			{Name: "C02_cycle", Expect: []string{"end", "return-value-equal", "executed-pcs-equal"},
+				Quick:    grid([]string{"M", "P", "n"}, []int{3, 4, 5}, []int{1, 2}, []int{1, 2}),
+				Thorough: append(grid([]string{"M", "P", "n"}, []int{3, 4, 5, 8}, []int{1, 2, 3}, []int{1, 2}), grid([]string{"M", "P", "n"}, []int{3, 4}, []int{1, 2}, []int{3})...)},
+			{Name: "C02_cycle_canary", Role: "canary",
+				Quick:    []Params{{"M": 3, "P": 1, "n": 2}},
+				Thorough: []Params{{"M": 3, "P": 1, "n": 2}, {"M": 4, "P": 2, "n": 3}}},
+			{Name: "C02_run", Expect: []string{"end", "result-is-alive-flag"}, TerminationClaim: true,
+				Quick:    grid([]string{"M", "P", "n", "maxCycles"}, []int{3}, []int{1, 2}, []int{1, 2}, []int{1, 2, 3}),
+				Thorough: grid([]string{"M", "P", "n", "maxCycles"}, []int{3, 4}, []int{1, 2}, []int{1, 2, 3}, []int{1, 2, 3, 4, 5})},
+		},
+		Outside: []string{"more than 3 warriors (2 in the quick tier); cycle limits above 5 in the Run-vs-stepping harness (the cycle harness is inductive: arbitrary cycle count and limit)", "the task step itself (C01)"},
+	})
 }
